@@ -806,25 +806,36 @@ class TreeFacts:
         f = ctx.func(TREES, "IntervalTree.__contains__")
         item = f.params[1]
         flow = Flow(f)
-        cond = "isinstance(%s, (tuple, list))" % item
-        alt = "isinstance(%s, (list, tuple))" % item
+        # kinds of key: a tuple / list, an array with at least one dimension (a row of the array handed to query()), a 0-d array, a scalar
+        SEQ = ["isinstance(%s, (tuple, list))" % item, "isinstance(%s, (list, tuple))" % item]
+        ARR = ["isinstance(%s, np.ndarray)" % item, "isinstance(%s, numpy.ndarray)" % item]
+        DIM = ["%s.ndim" % item, "%s.ndim > 0" % item, "%s.ndim >= 1" % item, "np.ndim(%s)" % item, "np.ndim(%s) > 0" % item, "%s.ndim != 0" % item]
+        for extra in ("isinstance(%s, (tuple, list, np.ndarray))", "isinstance(%s, (list, tuple, np.ndarray))"):
+            SEQ_ARR = extra % item
+        kinds = {"sequence": (True, False, False), "array": (False, True, True), "0-d array": (False, True, False), "scalar": (False, False, False)}
         seen = {}
-        for v in (True, False):
-            assume = {cond: v, alt: v}
+        for kname, (sq, ar, dm) in kinds.items():
+            assume = {}
+            assume.update({t_: sq for t_ in SEQ})
+            assume.update({t_: ar for t_ in ARR})
+            if ar:
+                assume.update({t_: dm for t_ in DIM})
+            for extra in ("isinstance(%s, (tuple, list, np.ndarray))", "isinstance(%s, (list, tuple, np.ndarray))"):
+                assume[extra % item] = sq or ar
             rets = [r_ for r_ in flow.stmts if isinstance(r_, ast.Return) and r_.value is not None and flow.live_under(r_, assume)]
             vals = []
             for r_ in rets:
                 val = flow.resolve_under(r_.value, assume, at=r_, depth=6, stop=(item,))
                 vals.append((r_, val))
-            seen[v] = vals
-        fact = "sequence key: %s; other key: %s" % ([norm(v_)[:70] for _, v_ in seen[True]], [norm(v_)[:70] for _, v_ in seen[False]])
+            seen[kname] = vals
+        fact = "; ".join("%s key: %s" % (k_, [norm(v_)[:60] for _, v_ in seen[k_]]) for k_ in kinds)
         if not any("isinstance" in norm(n_) for n_ in walk_no_nested(f.node) if isinstance(n_, ast.Call)):
             raise AnalysisError("__contains__: no isinstance dispatch on the key")
         ok = True
-        for v, priv in ((True, "_query"), (False, "_query_point")):
-            if len(seen[v]) != 1:
-                raise AnalysisError("__contains__: %d returns on the path for a %s key" % (len(seen[v]), "sequence" if v else "scalar"))
-            val = seen[v][0][1]
+        for kname, priv in (("sequence", "_query"), ("array", "_query"), ("0-d array", "_query_point"), ("scalar", "_query_point")):
+            if len(seen[kname]) != 1:
+                raise AnalysisError("__contains__: %d returns on the path for a %s key" % (len(seen[kname]), kname))
+            val = seen[kname][0][1]
             cs = [c for c in ast.walk(val) if isinstance(c, ast.Call) and norm(c.func) in ("self._query", "self._query_point")]
             if len(cs) != 1:
                 raise AnalysisError("__contains__: the returned value %s is not built from one private query" % norm(val)[:60])
@@ -846,7 +857,8 @@ class TreeFacts:
             fl = b.get(g.params[3]) if len(g.params) > 3 else None
             ok = ok and isinstance(fl, ast.Constant) and fl.value is True
         ctx.ob("IntervalTree.__contains__", ok, fact,
-               "tuple/list -> _query(item, self.root, check_extreme=True); else _query_point(item, self.root, check_extreme=True)",
+               "tuple / list / array with a dimension (an interval, e.g. a row of the array given to query) -> _query(item, self.root, check_extreme=True); "
+               "scalar / 0-d array -> _query_point(item, self.root, check_extreme=True)",
                node=f.node, func=f)
 
     def rule_api(self):
@@ -1330,3 +1342,6 @@ def _all_forms(flow, expr, at, symmap):
 def run(ctx):
     tree_rules(ctx)
     ctx.attempt(rule_match, ctx)
+    # match(max_interval=<number>): the number of seconds, fraction included (shared with C04)
+    from .C04 import rule_fraction
+    ctx.attempt(rule_fraction, ctx, "C03.seconds")
